@@ -172,4 +172,23 @@ Module SrcEx.
     split; [vm_compute; reflexivity|]. split; [vm_compute; reflexivity|]. split; [vm_compute; reflexivity|].
     split; [vm_compute; reflexivity|]. apply AL2_here.
   Qed.
+
+  (** changing only [kk] and [nn] (no conditional default reads them): the class [difs_avoid_b] holds;
+      with [f2] it does not ([bb]'s rule reads [aa], whose default [f2] removes) *)
+  Definition f3 (x : arg) : list bytes :=
+    if beq (a_id x) [107] then [[90]] else if beq (a_id x) [110] then [[78]] else a_default x.
+  Definition st_of (r : res ps) : ps := match r with ROk st => st | _ => ps_new end.
+  Example ex_unchanged :
+    difs_avoid_b f3 cb = true /\ difs_avoid_b f2 cb = false /\ wf_inv (with_defaults f3 cb) tinv = true /\
+    run_inv cb tinv = ROk (st_of (run_inv cb tinv)) /\
+    run_inv (with_defaults f3 cb) tinv = ROk (st_of (run_inv (with_defaults f3 cb) tinv)) /\
+    summary (into_inner (mt (st_of (run_inv (with_defaults f3 cb) tinv)))) =
+      [([109], Some SCmdLine, [[[77]]]); ([102], Some SCmdLine, [[s_true]]);
+       ([97], Some SEnv, [[[69;49]]]); ([101], Some SEnv, [[[69;50]; [51]]]);
+       ([98], Some SDefault, [[[120]]]); ([103], Some SDefault, [[s_false]]);
+       ([104], Some SDefault, [[s_false]]); ([107], Some SDefault, [[[90]]]); ([110], Some SDefault, [[[78]]])].
+  Proof.
+    split; [vm_compute; reflexivity|]. split; [vm_compute; reflexivity|]. split; [vm_compute; reflexivity|].
+    split; [vm_compute; reflexivity|]. split; [vm_compute; reflexivity|]. vm_compute. reflexivity.
+  Qed.
 End SrcEx.
